@@ -192,9 +192,21 @@ func c18TourB(emailAuth bool) []tourStep {
 			c := w.Browsers[b].Session["sms_secret"]
 			return flows.SMSRemove(s, b, c, ""), c != ""
 		}),
+		// a second browser: an account that already has TOTP logs in and switches it off with a recovery code
+		reqStep("login(B2,u4,pw)#pending", "", func(s *world.Stack, w *world.World) (world.Req, bool) { return flows.Login(s, "B2", c18U4, P3, false), true }),
+		reqStep("totp-validate(B2,code)", "", func(s *world.Stack, w *world.World) (world.Req, bool) {
+			sec := w.DB.Users[c18U4].TOTPSecretKey
+			return flows.TOTPValidate(s, "B2", flows.TOTPCode(w, sec, 0), ""), sec != ""
+		}),
+		reqStep("totp-remove(B2,rc:live)", "", func(s *world.Stack, w *world.World) (world.Req, bool) {
+			v, ok := liveVal(w, "rc", c18U4)
+			return flows.TOTPRemove(s, "B2", "", v), ok
+		}),
 	)
 	return st
 }
+
+const c18U4 = "u4@x.io"
 
 // ---- credential probes (O4)
 
@@ -323,6 +335,9 @@ func c18Run(name string, cfg world.Config, tour []tourStep, pairs bool, dl time.
 	w := world.NewWorld("B1", "B2", "B3")
 	flows.SeedAcct(s, w, flows.Acct{PID: U1, Password: P1})
 	flows.SeedAcct(s, w, flows.Acct{PID: U2, Password: P2, SMSNumber: N2, RecoveryCodes: []string{"ddddd-44444"}})
+	if cfg.Has("totp2fa") {
+		flows.SeedAcct(s, w, flows.Acct{PID: c18U4, Password: P3, TOTPSecret: flows.TOTPSecrets[2], RecoveryCodes: []string{"fffff-66666", "ggggg-77777"}})
+	}
 	for _, p := range []string{P1, P2, P3, "Rec0vered!pw", "Wr0ng!pass"} {
 		w.Truth.Flags["c17:pw:"+p] = "1"
 	}
